@@ -11,3 +11,18 @@ from . import e1_types
           'independence for every view and every chain (compositional).')
 def c17(F, R, tier):
     e1_types.run_c17(F, R)
+
+
+from . import e2_protocol
+
+
+@register('C01', 'proof',
+          'Static proof of the forwarding protocol by path counting and def-use over the type-checked structured IR of '
+          'every update()/last(): each input child is updated exactly once per path with the raw value (R1), before '
+          'its last() is read (R1b); the raw value goes nowhere else (R2); no state is written before/without the '
+          'gate and the None path is inert (R3); combinators return Some only when all children do (R4); inner views '
+          'are only used through View::update/View::last (R5). By parametricity over the opaque child type these '
+          'imply the behavioural statement for every pair/triple/chain; the argument is compositional so 38 per-view '
+          'verdicts cover every composition, every N and every input stream.')
+def c01(F, R, tier):
+    e2_protocol.run_c01(F, R)
